@@ -572,8 +572,13 @@ func cmdReplay(args []string) int {
 	if p.Violation != nil {
 		props = map[string]bool{p.Violation.Property: true}
 	}
-	// known findings are not suppressed on replay: a replay file must fail the same way
-	run, herr := ExecOnce(e, p, props, nil, *trace)
+	// The recorded violation itself is never suppressed on replay (a replay file must fail
+	// the same way); the other open known findings are, exactly as in the run that found it.
+	known, _ := loadKnown()
+	if p.Violation != nil {
+		delete(known, p.Violation.Key())
+	}
+	run, herr := ExecOnce(e, p, props, known, *trace)
 	if herr != nil {
 		fmt.Fprintln(os.Stderr, "HARNESS-ERROR: harness panic:", herr)
 		return ExitHarness
@@ -617,8 +622,10 @@ func cmdShrink(args []string) int {
 	}
 	props := map[string]bool{p.Violation.Property: true}
 	before := len(p.Steps)
-	q, tries := Shrink(e, p, p.Violation.Key(), props, nil, time.Duration(*secs)*time.Second)
-	run, herr := ExecOnce(e, q, props, nil, true)
+	known, _ := loadKnown()
+	delete(known, p.Violation.Key())
+	q, tries := Shrink(e, p, p.Violation.Key(), props, known, time.Duration(*secs)*time.Second)
+	run, herr := ExecOnce(e, q, props, known, true)
 	if herr != nil {
 		return ExitHarness
 	}
